@@ -301,6 +301,16 @@ def replay_field(rp):
         ("AnnAssign", "annotation"): "log = []\ndef a():\n    log.append('ann')\n    return int\nx: a() = 1\n",
         ("For", "target"): "def f():\n    d = {}\n    k = 'key'\n    def g():\n        return d, k\n    for d[k] in range(2):\n        pass\n    return d\nr = f()\n",
     }
+    if (rp["stmt"], rp["field"]) == ("Expr", "value"):
+        # an expression statement is evaluated for its effect and must be validated
+        rep = RU.replay_source("log = []\nf'{log.append(1)}'\n'doc'\nlog.append(2)\nr = log\n", "same-globals")
+        if rep.get("reproduced"):
+            return rep
+        for src in ("def f():\n    f'{(yield 1)}'\n", "async def g():\n    pass\n", "def f():\n    (yield)\n"):
+            rep = RU.replay_source(src, "raises", opts=[("ast.unparse", "chain_call", "if_expr")])
+            if rep.get("reproduced"):
+                return rep
+        return dict(reproduced=False)
     src = progs.get((rp["stmt"], rp["field"]))
     if src is None:
         return dict(reproduced=False)
